@@ -6,6 +6,7 @@ import (
 	"flag"
 	"fmt"
 	"os"
+	"runtime/debug"
 	"sort"
 	"strconv"
 	"strings"
@@ -53,7 +54,7 @@ func main() {
 	func() {
 		defer func() {
 			if e := recover(); e != nil {
-				rep.Unk("engine", "panic", "", fmt.Sprint(e))
+				rep.Unk("engine", "panic", "", fmt.Sprint(e)+" :: "+string(debug.Stack()))
 			}
 		}()
 		rs(&rules.Ctx{P: p, R: rep, Tier: *tier})
